@@ -135,3 +135,10 @@ CORPUS += [
         "    def _sample_shape(self) -> torch.Size:\n        return self._rates.shape[:-1]\n\n    @classmethod\n    def make_spec(cls, id_: str, tree_model, rate):\n        return {'id': id_, 'type': cls.__name__, TreeModel.tag: tree_model, 'rate': rate}\n",
         mode='text', benign=True),
 ]
+CORPUS += [
+    Mut('c13-range-reference-resolved-by-its-last-id', 'torchtree/core/utils.py', '', "                for i in range(int(start), int(stop)):\n                    obj = dic[stem + str(i)]\n",
+        "                obj = dic[stem + str(int(stop) - 1)]\n", mode='text', expect=[('C13.P', 'process_object::range-reference-looks-every-member-up')]),
+    Mut('c13-repeated-objects-registered-once', 'torchtree/core/container.py', '', "            setattr(self, self._unique_id(obj), obj)\n",
+        "            if not any(obj is other for other in self._parameters.values()):\n                setattr(self, self._unique_id(obj), obj)\n", mode='text',
+        expect=[('C13.U', 'holders::Container.__init__::every-listed-object-is-registered')]),
+]
